@@ -335,6 +335,30 @@ func (p *Prog) CheckProperty(prop, tier string, seed int) *CheckResult {
 		}
 		obls = keep
 	}
+	// obligations that only carry assumed-* labels restate an assumption at the
+	// place where it is used (a call-site precondition, the preservation of an
+	// assumed invariant): they are listed in the evidence, not attempted
+	{
+		var keep []*Obl
+		nAssumed := 0
+		for _, o := range obls {
+			onlyAssumed := len(o.Labels) > 0
+			for _, l := range o.Labels {
+				if !strings.HasPrefix(l, "assumed-") {
+					onlyAssumed = false
+				}
+			}
+			if onlyAssumed && o.Expect != "sat" {
+				nAssumed++
+				continue
+			}
+			keep = append(keep, o)
+		}
+		obls = keep
+		if nAssumed > 0 {
+			res.Extra["assumed_obligations_not_attempted"] = nAssumed
+		}
+	}
 	work := filepath.Join(outDir, "work", prop+"-"+tier)
 	os.RemoveAll(work)
 	tSolve := time.Now()
@@ -617,6 +641,15 @@ func (r *CheckResult) writeEvidence() {
 					for _, l := range cl.Labels {
 						if strings.HasPrefix(l, "assumed-") {
 							assumptions = append(assumptions, fmt.Sprintf("[%s] precondition of %s: %s", l, u, cl.Src))
+						}
+					}
+				}
+				for n, invs := range ct.Invs {
+					for _, cl := range invs {
+						for _, l := range cl.Labels {
+							if strings.HasPrefix(l, "assumed-") {
+								assumptions = append(assumptions, fmt.Sprintf("[%s] loop %d invariant of %s (assumed, not proved): %s", l, n, u, cl.Src))
+							}
 						}
 					}
 				}
